@@ -9,7 +9,9 @@
  *   arg  := <dkey>;<isdict>;<key|~>;<val>;<required>;<skip_key>;<repeat_key>;<order>;<sep|~>;<set_if val>
  *
  *   C <n> | <pluginhex>                                  fresh case: no custom variables, empty attributes
- *   V <s|h|c> <namehex> <val>                            custom variable on service / host / command
+ *   V <s|h|c|i> <namehex> <val>                          custom variable on service / host / command / in the global `Vars` (icinga)
+ *   U <namehex> <hex>                                    variable in the environment of the DAEMON (setenv in the executing process):
+ *                                                        reachable as $env.<name>$ only, never as the short macro $<name>$
  *   T <s|h> <attr> <hex>                                 address address6 display_name notes notes_url action_url
  *   N <idx> <hex>                                        `env` entry C09E_<idx> of the command (a macro string); applies to X and Y lines
  *   M <svc> <level> <esc> <hex> | ok <val> <missing> | err <kind>
@@ -30,6 +32,8 @@
  *
  *   Z <signal> <op line>                                              the child executing <op line> died (0 = exited abnormally,
  *                                                                     14 = hung for 200 s); the run continues with the next line
+ *   <timeout_s> of an X line may be written <command timeout>/<check_timeout of the host or service>: the plugin's timeout is then the
+ *   checkable's (pluginchecktask.cpp:40-43).
  *   X lines take an optional 5th field after <sleep_ds>: what the plugin does on SIGTERM — t0..t3 = trap it and exit 0..3,
  *   ti = ignore it (must be SIGKILLed), - = default action; r<n> = the plugin prints its output and dies by signal <n>;
  *   fk = the plugin forks a child that holds the output pipe and sleeps (<gone> then refers to that child).
@@ -255,8 +259,13 @@ static void Setup()
 	l_Svc->OnAllConfigLoaded();
 }
 
+static std::set<B> l_DaemonEnv;
+
 static void ResetCase()
 {
+	IcingaApplication::GetInstance()->SetVars(new Dictionary());
+	for (const B& nm : l_DaemonEnv) unsetenv(nm.c_str());
+	l_DaemonEnv.clear();
 	l_Host->SetVars(new Dictionary());
 	l_Svc->SetVars(new Dictionary());
 	l_Cmd->SetVars(new Dictionary());
@@ -397,6 +406,7 @@ static B GoneState(const B& pidFile)
 }
 
 static B l_TermMode = "-";
+static int l_CheckTimeout = -1;   /* check_timeout of the host/service for the next run; -1: not set */
 static std::map<B, B> l_EnvRaw;   /* idx -> macro string (N lines) */
 
 static Dictionary::Ptr PluginEnv(const B& dump, int exitCode, const B& out, int sleepDs)
@@ -469,6 +479,7 @@ static B RunCheck(bool svc, const Value& cmd, const Dictionary::Ptr& args, int e
 	l_Cmd->SetEnv(PluginEnv(dump, exitCode, out, sleepDs));
 	l_Cmd->SetTimeout(timeoutS > 0 ? timeoutS : 60);
 	Checkable::Ptr checkable = svc ? Checkable::Ptr(l_Svc) : Checkable::Ptr(l_Host);
+	checkable->SetCheckTimeout(l_CheckTimeout >= 0 ? Value(l_CheckTimeout) : Value(Empty));
 	CheckResult::Ptr cr = new CheckResult();
 	l_Done = false;
 	/* the documented hook for the completion callback (pluginchecktask.cpp:48-49): run the real handler, then wake the main thread */
@@ -600,8 +611,18 @@ static bool Exec(const B& lineIn)
 	} else if (op == "V" && w.size() == 4) {
 		B name; VVal v;
 		if (!Unhex(w[2], name) || !ParseVal(w[3], v)) return false;
-		CustomVarObject::Ptr obj = w[1] == "s" ? CustomVarObject::Ptr(l_Svc) : w[1] == "h" ? CustomVarObject::Ptr(l_Host) : CustomVarObject::Ptr(l_Cmd);
-		Dictionary::Ptr(obj->GetVars())->Set(name, ToValue(v));
+		if (w[1] == "i") {
+			IcingaApplication::GetInstance()->GetVars()->Set(name, ToValue(v));
+		} else {
+			CustomVarObject::Ptr obj = w[1] == "s" ? CustomVarObject::Ptr(l_Svc) : w[1] == "h" ? CustomVarObject::Ptr(l_Host) : CustomVarObject::Ptr(l_Cmd);
+			Dictionary::Ptr(obj->GetVars())->Set(name, ToValue(v));
+		}
+		o << "ok";
+	} else if (op == "U" && w.size() == 3) {
+		B name, v;
+		if (!Unhex(w[1], name) || !Unhex(w[2], v) || name.empty() || name.find('=') != B::npos) return false;
+		setenv(name.c_str(), v.c_str(), 1);
+		l_DaemonEnv.insert(name);
 		o << "ok";
 	} else if (op == "T" && w.size() == 4) {
 		B v;
@@ -642,7 +663,9 @@ static bool Exec(const B& lineIn)
 		B out;
 		if (!Unhex(w[i + 1], out)) return false;
 		l_TermMode = (i + 5 == w.size()) ? w[i + 4] : B("-");
-		struct TermReset { ~TermReset() { l_TermMode = "-"; } } termReset;
+		size_t slash = w[i + 2].find('/');
+		l_CheckTimeout = slash == B::npos ? -1 : atoi(w[i + 2].c_str() + slash + 1);
+		struct TermReset { ~TermReset() { l_TermMode = "-"; l_CheckTimeout = -1; } } termReset;
 		o << DoX(w[1] == "1", cmd, args, atoi(w[i].c_str()), out, atoi(w[i + 2].c_str()), atoi(w[i + 3].c_str()));
 	} else if (op == "H" && w.size() == 5) {
 		B str;
@@ -714,7 +737,7 @@ static void Must(const B& line)
 	l_Batch.push_back(line);
 }
 
-static bool IsSetupLine(const B& l) { return l.size() > 1 && l[1] == ' ' && (l[0] == 'C' || l[0] == 'V' || l[0] == 'T' || l[0] == 'N'); }
+static bool IsSetupLine(const B& l) { return l.size() > 1 && l[1] == ' ' && (l[0] == 'C' || l[0] == 'V' || l[0] == 'T' || l[0] == 'N' || l[0] == 'U'); }
 
 static void FlushBatch()
 {
@@ -799,12 +822,17 @@ static B Dbl(const B& s)
 
 static const char *VARS[] = { "v0", "v1", "v2", "v3", "v4", "v5" };
 static const char *TRUTH[] = { "true", "false", "1", "0", "", "2", "-1", "yes", "00", "x y", "-0", "123456789", "on" };
+/* names of variables put into the daemon's environment: the "missing" names the generator uses and names of custom variables */
+static const char *ENVN[] = { "nx", "ny", "v0", "v1", "v3", "v5", "address", "C09_LEAK" };
 static const char *ATTRS[] = { "address", "address6", "display_name", "notes", "notes_url", "action_url" };
 
 /* a reference to some macro, existing or not */
 static B MacroRef(Rng& r)
 {
-	switch (r.below(14)) {
+	switch (r.below(17)) {
+		case 14: return B("$env.") + ENVN[r.below(NEL(ENVN))] + "$";
+		case 15: return B("$icinga.vars.") + VARS[r.below(NEL(VARS))] + "$";
+		case 16: return r.coin() ? "$nx$" : "$ny$";
 		case 0: return "$nx$";
 		case 1: return "$host.vars.nx$";
 		case 2: return "$nope.v0$";
@@ -872,6 +900,21 @@ static void GenSetup(Rng& r, long n, bool withEnv = false)
 		for (const char *name : VARS)
 			if (r.below(5) < 2)
 				Must(B("V ") + lvl + " " + Hex(name) + " " + ValTok(RandVarValue(r)));
+	/* a custom variable named like an attribute: which level / which source wins is part of "the macro's value" */
+	if (r.below(6) == 0) {
+		static const char *COLL[] = { "address", "notes", "display_name", "address6" };
+		static const char *LV[] = { "s", "h", "c" };
+		Must(B("V ") + LV[r.below(3)] + " " + Hex(COLL[r.below(NEL(COLL))]) + " " + ValTok(RandVarValue(r)));
+	}
+	/* default resolvers: the global `Vars` (a level like the others) and the daemon's own environment (never a level) */
+	for (const char *name : VARS)
+		if (r.below(12) == 0)
+			Must(B("V i ") + Hex(name) + " " + ValTok(RandVarValue(r)));
+	if (r.below(3) != 0) {
+		int ne = 1 + (int)r.below(3);
+		for (int i = 0; i < ne; i++)
+			Must(B("U ") + Hex(ENVN[i == 0 && r.coin() ? 0 : r.below(NEL(ENVN))]) + " " + Hex(r.below(4) ? RandText(r, 3, true) : B("")));
+	}
 	if (r.below(40) == 0)
 		Must(B("V h - ") + ValTok(RandVarValue(r)));   /* a variable named "" */
 	if (r.below(30) == 0) {
@@ -1117,6 +1160,11 @@ static void Gen(uint64_t seed, bool thorough)
 		/* a string command line: when /bin/sh forks instead of exec'ing, the plugin is a GRANDCHILD that only the kill of the
 		 * process group reaches */
 		Must("X 1 s:" + Hex("@P y") + " - 0 " + Hex("partial") + " 1 300");
+		/* "its timeout": the check_timeout of the host/service when set, else the command's.  60/1: must be killed after 1 s;
+		 * 1/60: sleeps 1.5 s and must NOT be killed (its exit code counts) */
+		Must("C " + std::to_string(++n));
+		Must("X " + std::to_string(seed % 2) + " a:" + HexList({ "@P", "own" }) + " - 0 " + Hex("partial") + " 60/1 300");
+		Must("X " + std::to_string((seed + 1) % 2) + " a:" + HexList({ "@P", "own" }) + " - " + std::to_string((int)(seed % 3)) + " " + Hex("late | t=1") + " 1/60 15");
 		/* a script plugin blocked in an external command: the child it forked must be gone as well */
 		Must("C " + std::to_string(++n));
 		Must("X 0 a:" + HexList({ "@P", "forks" }) + " - 0 " + Hex("waiting") + " 1 300 fk");
